@@ -23,7 +23,13 @@
 //!
 use crate::error::{ReductionError, Result};
 #[cfg(not(feature = "blas"))]
-use linfa_linalg::{lobpcg::TruncatedSvd, Order};
+use linfa_linalg::{
+    eigh::{EigSort, EighInto},
+    lobpcg::TruncatedSvd,
+    Order,
+};
+#[cfg(not(feature = "blas"))]
+use ndarray::s;
 use ndarray::{Array1, Array2, ArrayBase, Axis, Data, Ix2};
 #[cfg(feature = "blas")]
 use ndarray_linalg::{TruncatedOrder, TruncatedSvd};
@@ -91,13 +97,35 @@ impl<T, D: Data<Elem = f64>> Fit<ArrayBase<D, Ix2>, T, ReductionError> for PcaPa
 
         // estimate Singular Value Decomposition
         #[cfg(feature = "blas")]
-        let result =
-            TruncatedSvd::new(x, TruncatedOrder::Largest).decompose(self.embedding_size)?;
+        let (sigma, mut v_t) = {
+            let result =
+                TruncatedSvd::new(x, TruncatedOrder::Largest).decompose(self.embedding_size)?;
+            // explained variance is the spectral distribution of the eigenvalues
+            let (_, sigma, v_t) = result.values_vectors();
+            (sigma, v_t)
+        };
         #[cfg(not(feature = "blas"))]
-        let result = TruncatedSvd::new_with_rng(x, Order::Largest, SmallRng::seed_from_u64(42))
-            .decompose(self.embedding_size)?;
-        // explained variance is the spectral distribution of the eigenvalues
-        let (_, sigma, mut v_t) = result.values_vectors();
+        let (sigma, mut v_t) = if x.ncols() <= 500 || 5 * self.embedding_size > x.ncols() {
+            // LOBPCG pays off for a few components of a large problem and is not reliable when
+            // its search space (three times the block size) is not small compared to the problem,
+            // everything else is solved densely through the Gram matrix
+            let (eigvals, eigvecs) = x.t().dot(&x).eigh_into()?.sort_eig_desc();
+            // drop the null space, like the truncated decomposition does
+            let cutoff = f64::EPSILON * 1e6 * eigvals[0];
+            let rank = eigvals.iter().take_while(|v| **v > cutoff).count();
+            let size = usize::min(self.embedding_size, usize::max(rank, 1));
+            (
+                eigvals.slice_move(s![..size]).mapv(|v| v.max(0.).sqrt()),
+                eigvecs.slice_move(s![.., ..size]).reversed_axes(),
+            )
+        } else {
+            let result =
+                TruncatedSvd::new_with_rng(x, Order::Largest, SmallRng::seed_from_u64(42))
+                    .decompose(self.embedding_size)?;
+            // explained variance is the spectral distribution of the eigenvalues
+            let (_, sigma, v_t) = result.values_vectors();
+            (sigma, v_t)
+        };
 
         // cut singular values to avoid numerical problems
         let sigma = sigma.mapv(|x| x.max(1e-8));
